@@ -97,14 +97,9 @@ theorem trust_never_uphill (tc : TCfg K) (gnorm : V → K) (sub : K → V → V 
     (hsub : ∀ fk gk xk tr, (sub fk gk xk tr).predF ≤ fk) (heta : 0 ≤ tc.eta) (x0 : V) :
     (trustNcg tc f gnorm sub x0).fn = (f (trustNcg tc f gnorm sub x0).x).1
     ∧ (trustNcg tc f gnorm sub x0).fn ≤ (f x0).1 := by
-  have := trustLoop_inv f tc gnorm sub hsub heta (f x0).1 tc.maxiter
-    { x := x0, converged := false,
-      status := (if tc.maxTr ≤ tc.initTr then -1 else if tc.initTr ≤ 0 then -1 else if tc.maxTr ≤ 0 then -1
-        else if tc.gtol < 0 then -1 else if tc.maxiter = 0 then 1 else 0),
-      fn := (f x0).1, jac := (f x0).2, jacMag := gnorm (f x0).2, nit := 0, tr := tc.initTr }
+  have := trustLoop_inv f tc gnorm sub hsub heta (f x0).1 tc.maxiter (trustInit tc f gnorm x0)
     ⟨rfl, rfl, le_refl _⟩
   unfold trustNcg
-  simp only []
   exact ⟨this.1, this.2.2⟩
 
 /-! ### Non-vacuity and witnesses (K = V = ℚ) -/
@@ -127,7 +122,7 @@ theorem trust_uphill_witness :
                          eta := 15 / 100, eps := 1 / 10 ^ 15 }
     let r := trustNcg tc (fun x : ℚ => (x, (1 : ℚ))) (fun g => |g|) (fun fk _ _ _ => ⟨1, false, fk + 2⟩) 0
     r.x = 1 ∧ r.fn = 1 ∧ r.status = 2 := by
-  simp [trustNcg, trustLoop, trustStep, rhoGt, rhoLt, quarter, threeQuarter, two, NewtonRe.absK]
+  simp [trustNcg, trustInit, trustLoop, trustStep, rhoGt, rhoLt, quarter, threeQuarter, two, NewtonRe.absK]
   norm_num
 
 end witnesses
